@@ -471,6 +471,9 @@ func checkC16(c C16Case, o *vcore.Obs) error {
 			need[inst] = name
 		}
 	}
+	// the instance's own snapshots are only listed at start-up; if a decodable one is (still) in the bucket,
+	// one of them must have been handed over (the restart-with-lost-LMDB case: nothing may be uploaded before)
+	ownNeeded := final.newestValid["own"] != ""
 	var beats atomic.Int64
 	hbStop := make(chan struct{})
 	go func() {
@@ -508,6 +511,9 @@ func checkC16(c C16Case, o *vcore.Obs) error {
 				done = false
 			}
 		}
+		if ownNeeded && deliveredCount["own"] == 0 {
+			done = false
+		}
 		if done {
 			break
 		}
@@ -522,6 +528,9 @@ func checkC16(c C16Case, o *vcore.Obs) error {
 				if lastDelivered[inst] != name {
 					missing = append(missing, fmt.Sprintf("%s (last delivered %q)", name, lastDelivered[inst]))
 				}
+			}
+			if ownNeeded && deliveredCount["own"] == 0 {
+				missing = append(missing, fmt.Sprintf("%s (no snapshot of the receiver's own instance was delivered at all)", final.newestValid["own"]))
 			}
 			sort.Strings(missing)
 			return fmt.Errorf("newest decodable snapshots not delivered within %v of fault-free polling at 1 ms intervals with a draining consumer: %v\nreceiver goroutines:\n%s", elapsed.Round(time.Millisecond), missing, receiverGoroutines())
@@ -586,6 +595,7 @@ func checkC16(c C16Case, o *vcore.Obs) error {
 	}
 	o.NonTrivial((c.NInst >= 4 && c.LimitDown == 1 && c.LimitDecom == 1) || (faultsUsed && superseded) || mixed)
 	o.ClassIf(maxHeld == c.LimitDown+c.LimitDecom, "memory-limits-reached")
+	o.ClassIf(ownNeeded && c.OwnCorrupt && c.OwnAtStart == 2, "own-newest-corrupt-older-decodable")
 	o.ClassIf(nCorrupt > 0, "corrupt-blobs-present")
 	o.ClassIf(mixed, "instance-with-corrupt-and-valid")
 	o.ClassIf(faultsUsed, "list-or-load-faults")
